@@ -1231,6 +1231,9 @@ func (e *nenum) renderD(fr *nframe, x ast.Expr, depth int) string {
 				}
 			}
 		}
+		if id, ok := v.X.(*ast.Ident); ok && id.Name == "unicode" && v.Sel.Name == "MaxASCII" && fr.subst[lname(id)] == "" && fr.multi[lname(id)] == "" && fr.defs[lname(id)] == nil {
+			return "127"
+		}
 		return e.renderD(fr, v.X, depth) + "." + v.Sel.Name
 	case *ast.IndexExpr:
 		return e.renderD(fr, v.X, depth) + "[" + e.renderD(fr, v.Index, depth) + "]"
@@ -2394,6 +2397,12 @@ func (e *nenum) stmt(fr *nframe, s ast.Stmt) {
 						e.inline(fr, ce, d, nil, token.ILLEGAL, true)
 						return
 					}
+					// inside an expanded helper, a helper call that hands on several results (`return mergeLit(a, b)`)
+					// is expanded in place: its returns are this helper's returns
+					if n := d.Type.Results.NumFields(); n > 1 {
+						e.inline(fr, e.hoistArgs(fr, ce), d, nil, token.ILLEGAL, true)
+						return
+					}
 				}
 			}
 		}
@@ -2677,7 +2686,20 @@ func (e *nenum) stmt(fr *nframe, s ast.Stmt) {
 				hasDefault = true
 			}
 			e.add(pev{"tcase", tagText + ":" + strings.Join(ts, ","), cc})
+			// inside an expanded helper a clause for one type reads like the comma-ok assertion it stands for: the
+			// bound variable is the asserted value and the assertion is known to hold (the caller's rules are stated
+			// on `v, ok := x.(*T)`)
+			typed := fr.level > 0 && len(cc.List) == 1 && tagText != "" && ts[0] != "nil"
+			if typed {
+				e.add(pev{"+", "ok(" + tagText + ".(" + ts[0] + "))", cc})
+				if bound != "" && bound != "_" {
+					fr.subst[bound] = tagText + ".(" + ts[0] + ")"
+				}
+			}
 			e.stmts(fr, cc.Body)
+			if typed && bound != "" && bound != "_" {
+				fr.subst[bound] = tagText
+			}
 			merged = append(merged, e.cur...)
 		}
 		if !hasDefault {
